@@ -156,6 +156,8 @@ class Tokenizer:
         text = self._source_text(after, tok.start)
         if text is not None:
             string = text
+            if start is not None:  # the coordinates are those of the text: from one delimiter to the other
+                start, end, line = after, tok.start, self.get_lines([after[0]])[0] or line
         if (not string) and self._stack:
             # empty params
             return self._stack.pop()
